@@ -855,10 +855,13 @@ def run_case(case, ctx, _classify=True):
         if sib is not None:
             param, c2, se2 = sib
             se0, r0, v0 = results[0]
-            S.check(ctx, "arg-reduction" if fam == "arg" else op, param, r0,
+            # label by shared naming code: the 17 plain reductions are named in reduction()/_tree_reduce, the four
+            # arg-reductions in arg_reduction, the four scans in cumreduction (the function is in the witness detail)
+            lab_op = {"red": "reduction", "arg": "arg-reduction", "cum": "scan"}.get(fam, op)
+            S.check(ctx, lab_op, param, r0,
                     (lambda: dask_call(se0 if se2 is _SAME else _se(se2), c2)), va=v0,
-                    describe={k: c2.get(k) for k in ("axis", "keepdims", "ddof", "order", "method", "k", "q", "qmethod", "dtype_arg")
-                              if c2.get(k) != case.get(k)} or {"split_every": se2})
+                    describe=dict({k: c2.get(k) for k in ("axis", "keepdims", "ddof", "order", "method", "k", "q", "qmethod", "dtype_arg")
+                                   if c2.get(k) != case.get(k)} or {"split_every": se2}, function=op))
 
 
 _SAME = object()
